@@ -230,8 +230,16 @@ RespFramed(framing, f) ==
     IF framing = "tcp" THEN TCPFramed(f) /\ Len(f) <= MaxTCPADU
     ELSE Len(f) >= 4 /\ Len(f) <= MaxRTUADU /\ CRCConsistent(f)
 
+\* framed correctly except that the ADU is longer than the transport's limit: byte counts 252..255 are
+\* representable in the one-byte count field although no legal ADU can carry them
+RespFramedAnySize(framing, f) ==
+    IF framing = "tcp" THEN TCPFramed(f) ELSE Len(f) >= 4 /\ CRCConsistent(f)
+
 ClassifyResp(framing, f) ==
-    IF ~RespFramed(framing, f) THEN [kind |-> "other"]
+    IF ~RespFramed(framing, f) THEN
+        (IF RespFramedAnySize(framing, f) /\ DecodeRespPDU(RespUnit(framing, f), RespPDUOf(framing, f)).ok
+         THEN [kind |-> "oversize", r |-> DecodeRespPDU(RespUnit(framing, f), RespPDUOf(framing, f)).r]
+         ELSE [kind |-> "other"])
     ELSE LET p == RespPDUOf(framing, f)
              u == RespUnit(framing, f)
              d == DecodeRespPDU(u, p)
